@@ -31,6 +31,7 @@ import (
 	"verif/model/corpus"
 	"verif/model/observe"
 	"verif/model/pscmp"
+	"verif/model/t1raw"
 )
 
 type workload struct {
@@ -175,6 +176,18 @@ func workloads() []workload {
 			return observe.Run("font", bytes.NewReader(in.Data)).Obs
 		}})
 	}
+	// a font whose composite glyphs are built from other composites: the order
+	// in which glyphs are decoded/expanded must not matter
+	ws = append(ws, workload{"type1.Read(nested seac chain)", func() string {
+		return observe.Run("font", bytes.NewReader(nestedSeacFont())).Obs
+	}})
+	ws = append(ws, workload{"ReadCMap(3 CMaps, one with the empty name)", func() string {
+		var sb strings.Builder
+		for _, name := range []string{"Beta", "", "Alpha"} {
+			sb.WriteString("/CIDInit /ProcSet findresource begin\n12 dict begin\nbegincmap\n/CMapName /" + name + " def\n/CMapType 1 def\n1 begincodespacerange <00> <ff> endcodespacerange\n1 begincidchar <41> " + fmt.Sprint(len(name)) + " endcidchar\nendcmap\nCMapName currentdict /CMap defineresource pop\nend\nend\n")
+		}
+		return observe.Run("cmap", strings.NewReader(sb.String())).Obs
+	}})
 	ws = append(ws, workload{"dictionary copy program", func() string {
 		intp := postscript.NewInterpreter()
 		err := intp.ExecuteString("/d 5 dict def d /a 1 put d /b 2 put d /c (x) put d 5 dict copy /e exch def " +
@@ -182,6 +195,27 @@ func workloads() []workload {
 		return pscmp.Canon(opTable, intp) + fmt.Sprint(" err=", err)
 	}})
 	return ws
+}
+
+func nestedSeacFont() []byte {
+	n := t1raw.Num
+	cat := func(parts ...[]byte) []byte {
+		var b []byte
+		for _, p := range parts {
+			b = append(b, p...)
+		}
+		return b
+	}
+	outline := func(x int32) []byte {
+		return cat(n(0), n(500), []byte{13}, n(x), n(0), []byte{21}, n(100), []byte{6}, n(200), []byte{7}, []byte{9, 14})
+	}
+	seac := func(b, a int32) []byte {
+		return cat(n(0), n(500), []byte{13}, n(0), n(10), n(300), n(b), n(a), []byte{12, 6})
+	}
+	enc := "/Encoding 256 array 0 1 255 {1 index exch /.notdef put} for dup 65 /A put dup 194 /acute put dup 1 /Aacute put dup 2 /Aacute2 put dup 3 /Aacute3 put def\n"
+	return t1raw.Build(t1raw.FontSpec{EncLenIV: 4, Top: enc,
+		Glyphs: map[string][]byte{".notdef": outline(0), "A": outline(10), "acute": outline(50), "Aacute": seac(65, 194), "Aacute2": seac(1, 194), "Aacute3": seac(2, 194), "zlast": seac(3, 194), "Bfirst": seac(3, 194)},
+		Order:  []string{".notdef", "zlast", "Aacute3", "A", "Aacute2", "acute", "Aacute", "Bfirst"}})
 }
 
 var factorial = []int{1, 1, 2, 6, 24}
